@@ -13,6 +13,9 @@ package protocol
 // encoded with kmsg.RequestFormatter (and with a hand-written KIP-482 header carrying
 // well-formed tagged fields), read back with ReadFrame+ParseRequest and compared on api key,
 // version, correlation id, client id and body.
+// (iii) pipelined streams of several frames on one reader under every chunking of a bounded
+// family: zz_verif_c10_pipe_test.go (parser loop) and pkg/broker/zz_verif_c10_pipe_conn_test.go
+// (Server.handleConnection).
 
 import (
 	"bufio"
@@ -176,16 +179,17 @@ func c10ClassifyPanic(p any) (string, string) {
 // ---- violations, smallest first ----
 
 type c10Replay struct {
-	Kind      string  `json:"kind"` // "bytes" | "roundtrip"
-	StreamHex string  `json:"stream_hex,omitempty"`
-	Mode      int     `json:"mode"`
-	Key       int16   `json:"key,omitempty"`
-	Version   int16   `json:"version,omitempty"`
-	Gen       *c10Gen `json:"gen,omitempty"`
-	Corr      int32   `json:"corr,omitempty"`
-	ClientID  *string `json:"client_id,omitempty"`
-	TagsHex   *string `json:"header_tags_hex,omitempty"`
-	Desc      string  `json:"desc,omitempty"`
+	Kind      string      `json:"kind"` // "bytes" | "roundtrip"
+	StreamHex string      `json:"stream_hex,omitempty"`
+	Mode      int         `json:"mode"`
+	Key       int16       `json:"key,omitempty"`
+	Version   int16       `json:"version,omitempty"`
+	Gen       *c10Gen     `json:"gen,omitempty"`
+	Corr      int32       `json:"corr,omitempty"`
+	ClientID  *string     `json:"client_id,omitempty"`
+	TagsHex   *string     `json:"header_tags_hex,omitempty"`
+	Desc      string      `json:"desc,omitempty"`
+	Pipe      *c10pReplay `json:"pipelined,omitempty"` // kind "pipelined": several frames on one reader
 }
 
 type c10Viol struct {
@@ -467,7 +471,7 @@ func c10ClientIDs(rest []byte) (out [][]byte, descs []string) {
 func TestVerifC10(t *testing.T) {
 	rep := vh.New(t, "C10")
 	defer rep.Finish()
-	rep.Rule = "cases: (A) request headers = api key (advertised keys, kmsg-known unadvertised, unknown, -1) x version boundaries x client-id length field x tagged-field section (count, tag, size over uvarint boundaries incl. 2^63, 2^64-1, over-long varint) x every prefix truncation; (B) frame length prefixes {<0,0,len-1,len,len+1,2^24,2^31-1} x short/exact/long streams x chunked readers; (C) every single-byte / 2-byte / 4-byte / varint substitution at every offset and every prefix truncation of valid kmsg-encoded requests of every advertised (key,version); (D) round trip of generated kmsg requests (5 uniform field variants x client ids x correlation ids x header tag sections, plus every 1-leaf substitution) for every advertised (key,version). Each distinct byte string goes through ReadFrame then ParseRequest as in Server.handleConnection (identical truncations are executed once); the exception, counted in spin_guard_header_only and not in evaluations: when the real ParseRequestHeader succeeds on a flexible version and the remaining body contains two uvarint continuation bytes followed by a non-zero byte, only the header parse is executed, because kmsg v1.12.0 internalReadTags iterates a decoded tag count up to 2^32-1 times (about a minute of CPU) and would stall the enumeration. (S) a sub-corpus of A/B and every reported counterexample is served by the real Server.handleConnection. Outcome signature = phase, key class, flexible?, parser outcome (error text with numbers removed / panic key / round-trip verdict). Non-trivial = the parser got past the fixed 8-byte header prefix (client id, tagged fields or body decoding was reached)."
+	rep.Rule = "cases: (A) request headers = api key (advertised keys, kmsg-known unadvertised, unknown, -1) x version boundaries x client-id length field x tagged-field section (count, tag, size over uvarint boundaries incl. 2^63, 2^64-1, over-long varint) x every prefix truncation; (B) frame length prefixes {<0,0,len-1,len,len+1,2^24,2^31-1} x short/exact/long streams x chunked readers; (C) every single-byte / 2-byte / 4-byte / varint substitution at every offset and every prefix truncation of valid kmsg-encoded requests of every advertised (key,version); (D) round trip of generated kmsg requests (5 uniform field variants x client ids x correlation ids x header tag sections, plus every 1-leaf substitution) for every advertised (key,version); (P) pipelined streams: every sequence of 2..3 valid client-encoded request frames over a 5-frame alphabet (flexible and non-flexible versions, empty to 970-byte frames, null/empty/short/long client ids; position-dependent correlation ids), every advertised (key,version) once behind and once in front of every alphabet frame, and 1..2 complete frames followed by a partial frame and EOF, each stream read by repeated ReadFrame+ParseRequest on ONE reader under every chunking of {all in one Read, one byte per Read, one Read per frame, data with io.EOF, split at every single offset}: the i-th call must return exactly the i-th encoded request (frame bytes, key, version, correlation id, client id, body); the same streams through Server.handleConnection (PS): the handler must be given every request in order and every request must be answered in order with its correlation id. Each distinct byte string goes through ReadFrame then ParseRequest as in Server.handleConnection (identical truncations are executed once); the exception, counted in spin_guard_header_only and not in evaluations: when the real ParseRequestHeader succeeds on a flexible version and the remaining body contains two uvarint continuation bytes followed by a non-zero byte, only the header parse is executed, because kmsg v1.12.0 internalReadTags iterates a decoded tag count up to 2^32-1 times (about a minute of CPU) and would stall the enumeration. (S) a sub-corpus of A/B and every reported counterexample is served by the real Server.handleConnection. Outcome signature = phase, key class, flexible?, parser outcome (error text with numbers removed / panic key / round-trip verdict). Non-trivial = the parser got past the fixed 8-byte header prefix (client id, tagged fields or body decoding was reached)."
 	rep.Assumptions = []string{
 		"advertised (key,version) set = union of cmd/broker generateApiVersions and cmd/proxy generateProxyApiVersions, read from the source at run time",
 		"franz-go kmsg RequestFormatter stands for 'a standard Kafka client codec'; body equality = parsed.AppendTo bytes equal the client's body bytes and reflect.DeepEqual with the kmsg-normalised original",
@@ -489,7 +493,11 @@ func TestVerifC10(t *testing.T) {
 		if rp.Kind == "shared-pair" {
 			return // a replay of the concurrent half (TestVerifC10Shared)
 		}
-		c10RunReplay(t, rep, agg, rp)
+		if rp.Kind == "pipelined" {
+			c10pRunReplay(t, rep, agg, rp)
+		} else {
+			c10RunReplay(t, rep, agg, rp)
+		}
 		c10Emit(rep, agg, nil)
 		return
 	}
@@ -507,12 +515,17 @@ func TestVerifC10(t *testing.T) {
 	waitHuge := c10HugeStart(rep, agg, &ord)
 	// the round trip and the cheap phases first, so a deadline can only cut the big products
 	timed("D_roundtrip", func() { c10PhaseRoundTrip(t, rep, agg, pairs, thorough, deadline, &ord) })
+	var pipeCases []*c10pCase
+	timed("P_pipelined", func() { pipeCases = c10pPhase(t, rep, agg, pairs, ranges, thorough, deadline, &ord) })
 	timed("B_frames", func() { c10PhaseFrames(rep, agg, &ord, corpus) })
 	timed("A_headers", func() { c10PhaseHeaders(rep, agg, ranges, thorough, deadline, &ord, corpus) })
 	timed("C_mutations", func() { c10PhaseMutations(t, rep, agg, pairs, thorough, deadline, &ord) })
 	timed("B2_huge_frames_wait", waitHuge)
 	var conn map[string]string
-	timed("S_server", func() { conn = c10PhaseServer(t, rep, agg, corpus) })
+	timed("S_server", func() {
+		conn = c10PhaseServer(t, rep, agg, corpus)
+		c10pConnResults(t, rep, agg, pipeCases, &ord)
+	})
 	rep.SetInfo("phase_wall_s", walls)
 	c10Emit(rep, agg, conn)
 }
@@ -1213,7 +1226,7 @@ func c10PhaseServer(t *testing.T, rep *vh.Report, agg *c10Agg, corpus *c10Corpus
 	}
 	w.Flush()
 	f.Close()
-	cmd := exec.Command("go", "test", "-tags", "verif", "-overlay", ov, "-vet=off", "-count=1", "-timeout=600s", "-run", "^TestVerifC10Conn$", "./pkg/broker")
+	cmd := exec.Command("go", "test", "-tags", "verif", "-overlay", ov, "-vet=off", "-count=1", "-timeout=600s", "-run", "^TestVerifC10(Conn|PipeConn)$", "./pkg/broker")
 	cmd.Dir = repo
 	env := []string{}
 	for _, kv := range os.Environ() {
@@ -1223,6 +1236,7 @@ func c10PhaseServer(t *testing.T, rep *vh.Report, agg *c10Agg, corpus *c10Corpus
 		env = append(env, kv)
 	}
 	cmd.Env = append(env, "C10_CORPUS="+in, "C10_RESULTS="+outp)
+	cmd.Env = append(cmd.Env, c10pConnEnv(scratch)...)
 	t0 := time.Now()
 	if b, err := cmd.CombinedOutput(); err != nil {
 		tail := string(b)
